@@ -458,6 +458,30 @@ def exit_summary(events, returns_node, local):
     return out
 
 
+def exit_leaks(data):
+    """The exits through exceptions raised inside callees on which an ordinary function still owns
+    something: [(back end, function, site, ((description, count), …))], first occurrences in table
+    order.  Written into Generated/CTables.lean (`Gen.cExitLeaksPy`); the Lean rules must find the
+    same list (`exitLeaks_twins_agree`)."""
+    out = []
+    for tag, ms in data['traces'].items():
+        local = set(data['local'][tag])
+        for m in ms:
+            if m['role'] != 'plain':
+                continue
+            for evs, _names in m['paths']:
+                if not _exceptional(evs):
+                    continue
+                bad = run_path(evs, m['returns_node'], local, False)
+                if bad is None or bad[1] == ARRAY_LEAK:
+                    continue
+                held = exit_summary(evs, m['returns_node'], local)
+                key = (tag, m['name'], evs[-1][1], tuple(held) if held is not None else (('<refused>', 0),))
+                if key not in out:
+                    out.append(key)
+    return out
+
+
 def _reviewed_text():
     here = os.path.dirname(os.path.abspath(__file__))
     with open(os.path.join(here, '..', 'lean', 'DD', 'CWrapReviewed.lean')) as f:
@@ -864,7 +888,7 @@ def check_C19(ctx):
                                         + ('while it still owns ' + ', '.join(
                                             f'{k} reference(s) on `{d}`' if k else d for d, k in held)
                                            if held is not None else
-                                           f'through a `finally` / `except` block that is refused: {bad[1]}'))
+                                           f'on a path that is refused before its end (possibly in a `finally` / `except` block): {bad[1]}'))
                                 ctx.violation(
                                     what,
                                     dict(backend=tag, method=m['name'], line=line, site=site,
